@@ -163,7 +163,13 @@ def main(tier):
         # ---- 2. schedule export (spec -> code) -----------------------------------------
         n1, n2, n3 = (70, 50, 24) if tier == "quick" else (1200, 900, 300)
         sch1, r1 = S.export_schedules(ex, scratch, 1)
-        sch2, r2 = S.export_schedules(ex, scratch, 2 if tier == "quick" else 3, kinds=("soft", "hard"), crash_pcs={"scr", "xyz", "tmp", "replace", "next", "step", "data2"})
+        sch2, r2 = S.export_schedules(ex, scratch, 2, kinds=("soft", "hard"), crash_pcs={"scr", "xyz", "tmp", "replace", "next", "step", "data2"})
+        if tier == "thorough":   # three crashes: exported on a small lattice (the export runs on one worker)
+            ex3 = S.lattice_consts(steps=(4,), data=(1,), coord=(0, 2), vel=(0,), force=(0,), xyz=(0, 1), ckpt=(1, 2), prnt=(1,))
+            sch3c, r3c = S.export_schedules(ex3, scratch, 3, kinds=("soft", "hard"), crash_pcs={"scr", "tmp", "replace", "next", "step"}, timeout=3000)
+            sch2 = sch2 + [x for x in sch3c if len(x["sched"]) == 3]
+            states += r3c.distinct
+            trans += r3c.generated
         sch3, r3 = S.export_schedules(ex_tdm, scratch, 1, crash_pcs={"scr", "vec", "tmp", "next"})
         for r in (r1, r2, r3):
             states += r.distinct
